@@ -26,6 +26,7 @@ var serverLockTable = []lockEntry{
 	{"partition", "paused", "mu", []string{"C06"}},
 	{"partition", "pause", "mu", []string{"C06"}},
 	{"partition", "subscriberCount", "mu", []string{"C13"}},
+	{"partition", "groupsCanceled", "consumersMu", []string{"C13"}},
 	{"partition", "sub", "mu", []string{"C02", "C14"}},
 	{"partition", "leaderReplSub", "mu", []string{"C02"}},
 	{"partition", "leaderOffsetSub", "mu", []string{"C02"}},
